@@ -86,6 +86,7 @@ def correspond(ctx):
     cvxopt = vlib.use_build(ctx.build)
     from corr import problems as PR
     from cvxopt import solvers, matrix, log, exp
+    breakdowns = []          # numerical breakdowns that escape as exceptions: no 'optimal' was returned, so not this property's subject unless systematic (C10 lists them)
     solvers.options.clear(); solvers.options['show_progress'] = False
     rng = random.Random(ctx.seed * 6151 + 4)
     n = 30 if ctx.quick() else 500
@@ -111,7 +112,10 @@ def correspond(ctx):
             r = quiet(solvers.cpl, c, F, G, h, pr.dims, A, b, kktsolver=kk, options=opts)
         except ValueError as e:
             if 'Rank' in str(e): bump('cpl:rank'); r = None
+            elif 'domain error' in str(e): breakdowns.append(('cpl', 'ValueError', str(e), desc)); r = None
             else: ctx.violation('c04:exception:cpl:ValueError', 'cpl raised ValueError: %s' % e, desc); r = None
+        except ZeroDivisionError as e:
+            breakdowns.append(('cpl', 'ZeroDivisionError', str(e), desc)); r = None
         except Exception as e:
             ctx.violation('c04:exception:cpl:%s' % type(e).__name__, 'cpl raised %s: %s' % (type(e).__name__, e), desc); r = None
         if r is not None:
@@ -144,10 +148,12 @@ def correspond(ctx):
         try: r = quiet(solvers.cp, F, G, h, pr.dims, A, b, options=opts_cp)
         except Exception as e:
             if isinstance(e, ValueError) and 'Rank' in str(e): bump('cp:rank'); r = None
-            elif 'feastol' in opts_cp and isinstance(e, (ValueError, ArithmeticError)) and 'domain error' in str(e):
+            elif 'feastol' in opts_cp and isinstance(e, (ValueError, ArithmeticError)):
                 # tolerances far beyond the defaults: the iteration may break down numerically before reaching them (an iterate leaves the cone
                 # by rounding); no 'optimal' was returned, so nothing for this property to judge
                 bump('cp:tight-tolerance-breakdown'); r = None
+            elif isinstance(e, (ValueError, ArithmeticError)) and ('domain error' in str(e) or isinstance(e, ZeroDivisionError)):
+                breakdowns.append(('cp', type(e).__name__, str(e), desc)); r = None
             else: ctx.violation('c04:exception:cp:%s' % type(e).__name__, 'cp raised %s: %s' % (type(e).__name__, e), desc); r = None
         if r is not None:
             bump('cp:' + r['status'])
@@ -284,9 +290,27 @@ def correspond(ctx):
             ft = 10 * t[0]
             nonneg = all(a >= -1e-12 for a in r['snl']) and all(a >= -1e-12 for a in r['znl'])
             gapok = float(d['gap']) <= 10 * t[1] or (float(d['pcost']) < 0 and float(d['gap']) <= 10 * t[2] * -float(d['pcost'])) or float(d['gap']) <= 100 * t[1] * (1 + abs(float(d['pcost'])))
-            if pres > ft or dres > ft or not (d['slIn'] and d['zlIn'] and nonneg) or not gapok:
+            inK = d['slIn'] and d['zlIn']
+            if not inK and 'feastol' in desc.get('options', {}):
+                # tolerances near the limit of double precision: the iterates reach the boundary of the cone to rounding (float margin 0.0,
+                # exact margin -1e-15); membership is judged with a rounding allowance relative to the size of the block
+                def margin(v, dims_):
+                    o_ = dims_['l']; ms = [v[i] for i in range(o_)]
+                    for m_ in dims_['q']:
+                        ms.append((v[o_] - math.sqrt(sum(v[o_ + i] ** 2 for i in range(1, m_)))) / (1.0 + abs(v[o_]))); o_ += m_
+                    return min(ms + [0.0]) if not dims_['s'] else None
+                mg = [margin(mlist(r['sl']), desc['dims']), margin(mlist(r['zl']), desc['dims'])]
+                if all(g is not None and g >= -1e-13 for g in mg): inK = True
+            if pres > ft or dres > ft or not (inK and nonneg) or not gapok:
                 ctx.violation('c04:optimal-not-certified:cp', "cp returned 'optimal' but the KKT conditions of the original problem fail at the returned point: pres=%.3g dres=%.3g gap=%.3g slIn=%s zlIn=%s"
                               % (pres, dres, float(d['gap']), d['slIn'], d['zlIn']), dict(desc, checker=o_))
+    for ent in ('cpl', 'cp'):
+        items = [b_ for b_ in breakdowns if b_[0] == ent]
+        runs = sum(v for k_, v in stat.items() if k_.startswith(ent + ':')) + len(items)
+        stat[ent + ':breakdown-exception'] = len(items)
+        if len(items) >= 4 and len(items) > 0.05 * max(runs, 1):
+            for _, cls, msg, desc_ in items[:3]:
+                ctx.violation('c04:exception:%s:%s:systematic' % (ent, cls), '%s raised %s: %s [%d of %d runs]' % (ent, cls, msg, len(items), runs), desc_)
     ctx.cov.update({'evaluations': evals, 'distinct_nontrivial': judged,
                     'rule': '%d rounds: (1) cpl on a planted convex QCQP (ball + 0-2 quadratic constraints, planted cone LP part, random kktsolver name / tolerances / refinement, dense or sparse G) '
                             'judged by the Lean checker with exact f, Df; (2) cp on a quadratic objective with or without quadratic constraints, judged likewise and compared with coneqp; '
